@@ -2,6 +2,8 @@ package vc
 
 import (
 	"fmt"
+	"go/ast"
+	"go/constant"
 	"go/types"
 	"os"
 	"path/filepath"
@@ -349,6 +351,11 @@ func (v *Verifier) VerifyFunc(fn *ssa.Function, ct *FuncContract, display string
 			fc.assume(reach, fc.evalBool(env, r.E))
 		}
 	}
+	if fc.C != nil {
+		for _, tn := range fc.C.Tables {
+			fc.assumeTableLiteral(st, tn)
+		}
+	}
 	if fc.C != nil && len(fc.C.EntryHints) > 0 {
 		fc.applyHints(fc.funcEnv(st), fc.C.EntryHints, "entryhint%d", reach)
 	}
@@ -471,7 +478,7 @@ func (v *Verifier) Discharge(results []*FuncResult, par int) {
 			retry = append(retry, o)
 		}
 	}
-	if len(retry) > 0 && len(retry) <= 40 {
+	if len(retry) > 0 && len(retry) <= 6 {
 		save := v.Solver.Timeout
 		v.Solver.Timeout = 3 * save
 		ch2 := make(chan *Obligation)
@@ -547,4 +554,77 @@ func (o *Obligation) DumpQuery(dir string) string {
 	p := filepath.Join(dir, sanitize(o.Name)+".smt2")
 	os.WriteFile(p, []byte(o.Query()+"(check-sat)\n"), 0o644)
 	return p
+}
+
+// assumeTableLiteral assumes that the package-level slice variable `name` still holds
+// the contents of its composite literal (the frame obligations of the runtime show
+// that no generated function writes the tables).
+func (fc *FuncCtx) assumeTableLiteral(st *State, name string) {
+	pkg := fc.Fn.Pkg
+	if pkg == nil {
+		specFail("tables: function has no package")
+	}
+	g, ok := pkg.Members[name].(*ssa.Global)
+	if !ok {
+		specFail("tables: no package-level variable %s", name)
+	}
+	var vals []string
+	found := false
+	for _, pp := range fc.V.Pkgs {
+		if pp.Types != pkg.Pkg {
+			continue
+		}
+		for _, f := range pp.Syntax {
+			for _, d := range f.Decls {
+				gd, ok := d.(*ast.GenDecl)
+				if !ok {
+					continue
+				}
+				for _, sp := range gd.Specs {
+					vs, ok := sp.(*ast.ValueSpec)
+					if !ok {
+						continue
+					}
+					for i, id := range vs.Names {
+						if id.Name != name || i >= len(vs.Values) {
+							continue
+						}
+						cl, ok := vs.Values[i].(*ast.CompositeLit)
+						if !ok {
+							specFail("tables: %s is not initialised by a composite literal", name)
+						}
+						for _, e := range cl.Elts {
+							tv, ok := pp.TypesInfo.Types[e]
+							if !ok || tv.Value == nil {
+								specFail("tables: %s has a non-constant element", name)
+							}
+							v, _ := constant.Int64Val(tv.Value)
+							vals = append(vals, intLit(v))
+						}
+						found = true
+					}
+				}
+			}
+		}
+	}
+	if !found {
+		specFail("tables: literal of %s not found", name)
+	}
+	if len(vals) > 600 {
+		specFail("tables: %s has %d elements (cap 600)", name, len(vals))
+	}
+	et := g.Type().Underlying().(*types.Pointer).Elem()
+	sl, ok := et.Underlying().(*types.Slice)
+	if !ok {
+		specFail("tables: %s is not a slice", name)
+	}
+	lv := &LValue{Kind: lvGlobal, Global: g, RootTy: et, Ty: et}
+	gv := fc.load(st, lv)
+	ek := fc.elemComp(sl.Elem())
+	E := fc.get(st, ek)
+	fc.assume("true", fmt.Sprintf("(= (s-len %s) %d)", gv, len(vals)))
+	for k, v := range vals {
+		fc.assume("true", "(= "+fc.at(sl.Elem(), E, gv, fmt.Sprint(k))+" "+v+")")
+	}
+	fc.noteAssumption(fmt.Sprintf("%s: the table %s holds its literal contents (%d entries)", fc.Key, name, len(vals)))
 }
